@@ -5,7 +5,7 @@ use cglue::prelude::v1::*;
 use std::io::{BufRead, Write};
 use xmod::*;
 
-enum V { Dead, Ctx(Ctx), Obj(Obj), Grp(Grp), Vec(CVec<u64>), TArc(cglue::arc::CArc<Token>), TBox(cglue::boxed::CBox<'static, u64>) }
+enum V { Dead, Ctx(Ctx), Obj(Obj), Grp(Grp), Vec(CVec<u64>), TArc(cglue::arc::CArc<Token>), TBox(cglue::boxed::CBox<'static, u64>), TSBox(cglue::boxed::CSliceBox<'static, u64>) }
 
 fn stats_of(t: &ModTable) -> Stats { let mut s = Stats::default(); (t.stats)(&mut s); s }
 
@@ -102,6 +102,8 @@ fn main() {
                 26 => if valid { match std::mem::replace(&mut pool[h as usize], V::Dead) { V::TArc(c) => { pool.push(V::Ctx((m.tarc_opaque)(c))); r = [1, 0, pool.len() as i64 - 1]; } other => pool[h as usize] = other } }
                 27 => { pool.push(V::TBox((m.make_box)(g(2) as u64))); r = [1, 0, pool.len() as i64 - 1]; }
                 28 => if valid { if let V::TBox(b) = &pool[h as usize] { r = [1, (m.box_get)(b) as i64, -1]; } }
+                29 => { pool.push(V::TSBox((m.make_sbox)(g(2) as u64, g(3).max(0) as u64))); r = [1, 0, pool.len() as i64 - 1]; }
+                30 => if valid { if let V::TSBox(b) = &pool[h as usize] { r = [1, (m.sbox_sum)(b) as i64, -1]; } }
                 16 => if valid { if let V::Vec(v) = &pool[h as usize] { let s: &[u64] = &v[..]; r = [1, (m.slice_sum)(s.into()) as i64, -1]; } }
                 17 => if valid {
                     match std::mem::replace(&mut pool[h as usize], V::Dead) {
@@ -112,6 +114,7 @@ fn main() {
                         V::Vec(v) => { (m.vec_drop)(v); r = [1, 0, -1]; }
                         V::TArc(c) => { (m.tarc_drop)(c); r = [1, 0, -1]; }
                         V::TBox(b) => { (m.box_drop)(b); r = [1, 0, -1]; }
+                        V::TSBox(b) => { (m.sbox_drop)(b); r = [1, 0, -1]; }
                     }
                 }
                 _ => {}
@@ -121,7 +124,7 @@ fn main() {
         // release whatever is left, alternating the releasing module
         for (i, v) in pool.drain(..).enumerate() {
             let m = mods[if single { 0 } else { i & 1 }];
-            match v { V::Dead => {}, V::Ctx(c) => (m.ctx_drop)(c), V::Obj(o) => (m.obj_drop)(o), V::Grp(o) => (m.grp_drop)(o), V::Vec(x) => (m.vec_drop)(x), V::TArc(c) => (m.tarc_drop)(c), V::TBox(b) => (m.box_drop)(b) }
+            match v { V::Dead => {}, V::Ctx(c) => (m.ctx_drop)(c), V::Obj(o) => (m.obj_drop)(o), V::Grp(o) => (m.grp_drop)(o), V::Vec(x) => (m.vec_drop)(x), V::TArc(c) => (m.tarc_drop)(c), V::TBox(b) => (m.box_drop)(b), V::TSBox(b) => (m.sbox_drop)(b) }
         }
         let now = [stats_of(mods[0]), stats_of(mods[1])];
         let mut s = String::new();
